@@ -567,7 +567,12 @@ pub fn replay_parsed(p: &PProblem, solution: &Value) -> Result<Report, String> {
     for (g, ts) in group_tours.iter() {
         rep.rule("group", ts.len() == 1);
         if ts.len() > 1 {
+            // a member of the group pinned to a vehicle by an `any` relation is a context of its own (known finding: the
+            // solution repair force-places such a job on its vehicle without looking at the tour its group rides in)
+            let pinned = p.relations.iter().any(|r| r.kind == "any" && r.jobs.iter().any(|id| p.job_index.get(id).is_some_and(|j| p.jobs[*j].group.as_deref() == Some(g.as_str()))));
+            rep.cur_ctx = if pinned { "solution+member-in-any-relation".into() } else { "solution".into() };
             rep.issue("C01", "group", format!("group {g} is spread over tours {ts:?}"));
+            rep.cur_ctx.clear();
         }
     }
 
